@@ -340,6 +340,45 @@ def _check_case(case):
             if not abs(lg - ref) <= 1e-9 * (1 + abs(ref)):
                 return f'log output {lg!r}, log of the probability is {ref!r}'
         return None
+    if kind == 'log-large':
+        # many qubits: the probability underflows in floating point but its logarithm does not;
+        # the log form must be the sum of the per-qubit logs, and log-differences (what the
+        # Metropolis step uses) must be the log of the likelihood ratio
+        rng2 = np.random.default_rng(case['seed'])
+        e = [int(x) for x in (rng2.random(2 * n) < 0.5)]
+        ref = 0.0
+        for i in range(n):
+            s_ = {(0, 0): 'I', (1, 0): 'X', (1, 1): 'Y', (0, 1): 'Z'}[(e[i], e[n + i])]
+            q = dists[i][s_]
+            if q == 0:
+                return None
+            ref += math.log(q.numerator) - math.log(q.denominator)
+        lg = float(impl_eprob(code, em, p, e, log=True))
+        if not (math.isfinite(lg) and abs(lg - ref) <= 1e-9 * (1 + abs(ref))):
+            return f'log output {lg!r} on n={n} qubits, sum of per-qubit log probabilities is {ref!r}'
+        f = list(e)
+        f[0] ^= 1
+        s0 = {(0, 0): 'I', (1, 0): 'X', (1, 1): 'Y', (0, 1): 'Z'}[(f[0], f[n])]
+        s1 = {(0, 0): 'I', (1, 0): 'X', (1, 1): 'Y', (0, 1): 'Z'}[(e[0], e[n])]
+        if dists[0][s0] != 0:
+            lf = float(impl_eprob(code, em, p, f, log=True))
+            want = math.log(dists[0][s0] / dists[0][s1])
+            if not (math.isfinite(lf - lg) and abs((lf - lg) - want) <= 1e-6):
+                return f'log-likelihood difference of two errors differing on one qubit is {lf - lg!r}, expected {want!r}'
+        return None
+    if kind == 'reuse':
+        # the same (model, code, rate) asked repeatedly: every call must give the same, stated value
+        errs = [[int(c) for c in t] for t in case['errors']]
+        first = [float(impl_eprob(code, em, p, e)) for e in errs]
+        em.get_weights(code, float(p))
+        again = [float(impl_eprob(code, em, p, e)) for e in errs]
+        for e, a, b in zip(errs, first, again):
+            want = stated_probability(dists, e)
+            if not close(a, want):
+                return f'error_probability = {a!r}, product of per-qubit probabilities = {float(want)!r}'
+            if a != b:
+                return f'error_probability of the same error changed from {a!r} to {b!r} on a repeated call'
+        return None
     if kind == 'sampling':
         us = [float(parse_rat(u)) for u in case['us']]
         e = [int(x) for x in em.generate(code, float(p), rng=StubRng(us))]
@@ -407,12 +446,20 @@ def oracle_cases(ctx, deep):
                 cand = N.edge_us(dists[i], rng)
                 us.append(cand[int(rng.integers(len(cand)))])
             cases.append(dict(base, kind='sampling', us=[rs(u) for u in us]))
+            cases.append(dict(base, kind='reuse', errors=[vec([0] * (2 * n)), vec(supported_error(rng, dists)),
+                                                          vec([0] * (2 * n)), vec(supported_error(rng, dists))]))
             if p != 0 and n >= 2:
                 prev = supported_error(rng, dists)
                 idx = int(rng.integers(n))
                 cand = [c for c in 'XYZ' if dists[idx][c] != 0]
                 cases.append(dict(base, kind='accept', previous=vec(prev), index=idx,
                                   letter=cand[int(rng.integers(len(cand)))]))
+    # large codes: log form where the plain product underflows
+    for name, size in ([('Toric2DCode', (24, 24)), ('Toric3DCode', (7, 7, 7))] + ([('Toric2DCode', (30, 31))] if deep else [])):
+        for p, r in ((Fraction(1, 2), (Fraction(1, 4), Fraction(1, 4), Fraction(1, 2))),
+                     (Fraction(1, 4), (Fraction(1, 2), Fraction(1, 4), Fraction(1, 4)))):
+            cases.append({'code': name, 'size': list(size), 'deformation': None, 'kwargs': {}, 'p': rs(p),
+                          'r': [rs(x) for x in r], 'kind': 'log-large', 'seed': int(rng.integers(0, 10 ** 6))})
     return cases
 
 
